@@ -32,10 +32,22 @@ def to_smt2(formulas, logic="ALL"):
     return txt
 
 
+def _die_with_parent():
+    # solver children must not outlive a killed check (PR_SET_PDEATHSIG = 1)
+    try:
+        import ctypes
+
+        ctypes.CDLL("libc.so.6").prctl(1, signal.SIGKILL)
+    except Exception:
+        pass
+    os.setsid()
+
+
 def _run_one(name, cmd, path, timeout, stop_evt, procs):
     t0 = time.time()
     try:
-        p = subprocess.Popen(cmd + [path], stdout=subprocess.PIPE, stderr=subprocess.PIPE, text=True, start_new_session=True)
+        p = subprocess.Popen(["timeout", "-s", "KILL", str(int(timeout) + 30)] + cmd + [path], stdout=subprocess.PIPE, stderr=subprocess.PIPE, text=True,
+                             preexec_fn=_die_with_parent)
     except OSError as e:
         return name, "error", str(e), time.time() - t0
     procs.append(p)
